@@ -286,6 +286,10 @@ EvDiag(e) ==
      THEN LET wantstr == StringOf(t, o, e.first, e.strN) IN
           NoteIf(e.string # wantstr, "DRIFT", "String() differs from the as-built rendering", [type |-> t, got |-> e.string, want |-> wantstr])
      ELSE TRUE
+  /\ IF Has(e, "dump") /\ DumpPredictable(t, o)
+     THEN LET wantdump == DumpOf(t, o) IN
+          NoteIf(e.dump # wantdump, "DRIFT", "Dump() differs from the as-built rendering", [type |-> t, got |-> e.dump, want |-> wantdump])
+     ELSE TRUE
   /\ diag' = (h :> [string |-> e.string, dump |-> e.dump]) @@ diag
   /\ Bystanders(e, h)
   /\ UNCHANGED <<pool, wanted, from, contig, enc, memo, prog>> /\ KeepStream
